@@ -17,11 +17,15 @@ pub fn cases(mode: &'static str, recvs: &'static BTreeMap<&'static str, RecvDesc
     // fault-free run is clean (mistakes are welcome: faults next to mistakes are the point)
     let mut per_receiver: BTreeMap<String, usize> = BTreeMap::new();
     let mut i = 0u64;
-    while i < 20000 && per_receiver.values().filter(|n| **n >= 4).count() < { let mut names: std::collections::BTreeSet<&str> = gen::receiver_names(mode).into_iter().collect(); if mode != "map" { names.extend(gen::ELEM_RECEIVERS); names.extend(crate::gen_schema::ELEM_NAMES); } names.len() } {
+    while i < 20000 && per_receiver.iter().filter(|(k, n)| **n >= if k.starts_with('G') { 1 } else { 4 }).count() < { let mut names: std::collections::BTreeSet<&str> = gen::receiver_names(mode).into_iter().collect(); if mode != "map" { names.extend(gen::ELEM_RECEIVERS); names.extend(crate::gen_schema::ELEM_NAMES); } names.len() } {
         let mut sc = gen::generate(run_seed(0xC0FFEE, i), mode, recvs);
         i += 1;
+        // hand-written receivers: four canonical inputs, every seam call, every fault kind;
+        // generated receivers (G*): one input, at most eight seam calls, four fault kinds
+        let generated = sc.receiver.starts_with('G');
+        let quota = if generated { 1 } else { 4 };
         let n = per_receiver.entry(sc.receiver.clone()).or_insert(0);
-        if *n >= 4 {
+        if *n >= quota {
             continue;
         }
         sc.env.faults.clear();
@@ -57,6 +61,9 @@ pub fn cases(mode: &'static str, recvs: &'static BTreeMap<&'static str, RecvDesc
             pos.map(SpanSel::Remote).unwrap_or(SpanSel::OwnPath)
         };
         out.push(sc.clone());
+        if generated {
+            keys.truncate(8);
+        }
         for k in keys {
             let mut kinds = vec![
                 Fault::ErrBare,
@@ -67,6 +74,9 @@ pub fn cases(mode: &'static str, recvs: &'static BTreeMap<&'static str, RecvDesc
                 Fault::ErrBundle { k: 2, spanned: None },
                 Fault::ErrBundle { k: 3, spanned: Some((1, first_other(&k))) },
             ];
+            if generated {
+                kinds = vec![Fault::ErrBare, Fault::ErrSpanned(first_other(&k)), Fault::ErrLocated, Fault::ErrBundle { k: 2, spanned: None }];
+            }
             if mode != "strict" {
                 kinds.push(Fault::Panic);
             }
